@@ -265,6 +265,7 @@ fn main() {
         "run" => supervisor(&argv),
         "worker" => worker(&argv),
         "tcp" => tcp_conformance(&argv),
+        "urlslice" => url_slice(&argv),
         "trace" => {
             let scn = find(&argv[2]);
             let tier = arg(&argv, "--tier").unwrap_or_else(|| "quick".into());
@@ -287,4 +288,85 @@ fn main() {
             std::process::exit(2);
         }
     }
+}
+
+/// `simx urlslice --out F`: C19 end to end. `Connection::insecure_open(url)` (real URL parsing,
+/// real `TcpStream::connect`, real handshake) against the scripted broker behind a loopback
+/// listener; what the broker sees (StartOk response, TuneOk, Open.virtual_host) must be what
+/// the URL spells out. Sequential and free-running: a slice, not an exploration.
+fn url_slice(argv: &[String]) {
+    use amq_protocol::frame::AMQPFrame;
+    use amq_protocol::protocol::{connection as pc, AMQPClass};
+    use std::io::{Read, Write};
+    use vh::sim::broker::{Broker, BrokerOut, Handshake, StdBroker};
+    let out = arg(argv, "--out");
+    let tier = arg(argv, "--tier").unwrap_or_else(|| "quick".into());
+    let mut part = Part::new("C19", "urlslice", "simx", "exploration", &tier);
+    part.rule = "URLs opened with the real Connection::insecure_open against a scripted broker behind a loopback TCP listener (free-running, no controller): the StartOk mechanism and response, the TuneOk heartbeat / channel_max and Open.virtual_host the broker receives must equal what the URL spells out; every listed URL is distinct".into();
+    amiquip::verif::clock::set_virtual(false);
+    amiquip::verif::install(None);
+    // (userinfo, vhost path, query) -> expected (mechanism, response, vhost, heartbeat, channel_max)
+    let cases: Vec<(&str, &str, &str, &str, &str, &str, u16, u16)> = vec![
+        ("", "", "", "PLAIN", "\u{0}guest\u{0}guest", "/", 60, 2047),
+        ("u:p@", "/vh", "", "PLAIN", "\u{0}u\u{0}p", "vh", 60, 2047),
+        ("u@", "/", "heartbeat=5", "PLAIN", "\u{0}u\u{0}guest", "/", 5, 2047),
+        (":p@", "/%2f", "channel_max=7", "PLAIN", "\u{0}guest\u{0}p", "/", 60, 7),
+        ("a%40b:c%3Ad@", "/a%2Fb", "heartbeat=0&channel_max=3", "PLAIN", "\u{0}a@b\u{0}c:d", "a/b", 0, 3),
+        ("team+ci:x+y@", "/prod+eu", "channel_max=65535", "PLAIN", "\u{0}team+ci\u{0}x+y", "prod+eu", 60, 2047),
+        ("u:p@", "/v%20w", "auth_mechanism=external", "EXTERNAL", "", "v w", 60, 2047),
+        ("", "/x", "auth_mechanism=external&heartbeat=9", "EXTERNAL", "", "x", 9, 2047),
+        ("%75ser:p%2Fw@", "", "connection_timeout=5000&heartbeat=61", "PLAIN", "\u{0}user\u{0}p/w", "/", 60, 2047),
+    ];
+    for (ui, path, query, mech, resp, vhost, hb, chmax) in cases {
+        part.evaluations += 1;
+        part.distinct_nontrivial += 1;
+        let listener = std::net::TcpListener::bind("127.0.0.1:0").unwrap();
+        let port = listener.local_addr().unwrap().port();
+        let url = format!("amqp://{}127.0.0.1:{}{}{}{}", ui, port, path, if query.is_empty() { "" } else { "?" }, query);
+        let server = std::thread::spawn(move || {
+            let mut broker = StdBroker::new(Handshake::default());
+            let (mut sock, _) = listener.accept().unwrap();
+            let _ = sock.set_read_timeout(Some(std::time::Duration::from_secs(10)));
+            let mut buf = vec![0u8; 65536];
+            loop {
+                match sock.read(&mut buf) {
+                    Ok(0) | Err(_) => break,
+                    Ok(n) => {
+                        let mut o = BrokerOut::default();
+                        broker.on_client_bytes(&buf[..n], &mut o);
+                        if !o.bytes.is_empty() && sock.write_all(&o.bytes).is_err() {
+                            break;
+                        }
+                        if o.eof {
+                            break;
+                        }
+                    }
+                }
+            }
+            broker.decoded()
+        });
+        let r = amiquip::Connection::insecure_open(&url).and_then(|c| c.close());
+        let frames = server.join().unwrap_or_default();
+        let mut got = (String::new(), String::new(), String::new(), 0u16, 0u16);
+        for f in frames.into_iter().flatten() {
+            match f {
+                AMQPFrame::Method(0, AMQPClass::Connection(pc::AMQPMethod::StartOk(s))) => {
+                    got.0 = s.mechanism;
+                    got.1 = s.response;
+                }
+                AMQPFrame::Method(0, AMQPClass::Connection(pc::AMQPMethod::TuneOk(t))) => {
+                    got.3 = t.heartbeat;
+                    got.4 = t.channel_max;
+                }
+                AMQPFrame::Method(0, AMQPClass::Connection(pc::AMQPMethod::Open(o))) => got.2 = o.virtual_host,
+                _ => {}
+            }
+        }
+        let want = (mech.to_string(), resp.to_string(), vhost.to_string(), hb, chmax);
+        if r.is_err() || got != want {
+            part.violation("urlslice:wrong-parameters", format!("{} -> result {:?}; broker saw (mechanism, response, vhost, heartbeat, channel_max) = {:?}, expected {:?}", url.replace(&port.to_string(), "PORT"), r.map_err(|e| format!("{:?}", e)), got, want), json!({"engine":"simx","scenario":"urlslice","url":url}));
+        }
+        part.sample(json!({"url": url.replace(&port.to_string(), "PORT"), "broker_saw": format!("{:?}", got)}));
+    }
+    part.finish(out.as_deref());
 }
